@@ -142,6 +142,19 @@ impl<C> Server<C> {
     }
 }
 
+/// Verification hook (compiled only with `--cfg quandary_verif`).
+#[cfg(quandary_verif)]
+impl<C> Server<C> {
+    /// Simulates `by` of idle time for response rate-limiting by moving
+    /// every RRL bucket's last-refill instant `by` into the past. Does
+    /// nothing when RRL is disabled.
+    pub fn verif_rrl_age(&self, by: std::time::Duration) {
+        if let Some(ref rrl) = self.rrl {
+            rrl.verif_age(by);
+        }
+    }
+}
+
 impl<C> Server<C>
 where
     C: Catalog,
